@@ -113,6 +113,10 @@ def run(tier):
     isl = [dict(lib=l_, linsolve=0, ipadd=ip, method="NR", repeat=(l_ == "klu" and ip == 1)) for l_ in ("klu", "umfpack", "spsolve") for ip in (1, 0)]
     for routine, tol in (("pflow", 1e-6), ("tds", 1e-3)):
         tasks.append(dict(case="ieee14/ieee14_island.xlsx", routine=routine, configs=isl, tol=tol, tf=0.3, sid="cfg[ieee14_island|%s]" % routine))
+        # a load bus without any shunt-type device cut off (positions 8 and 14 are the two branches of bus 12): nothing but the
+        # neutralisation itself puts an entry on the diagonal of that bus
+        tasks.append(dict(case="ieee14/ieee14_full.xlsx", routine=routine, configs=isl, lines_off=[8, 14], tol=tol, tf=0.3,
+                          sid="cfg[ieee14_full, bus 12 cut off|%s]" % routine))
     itasks = [dict(kind="interleave", case=cases[0], other=("5bus/pjm5bus.json" if k % 2 == 0 else cases[0]), lib=lib,
                    sid="interleave[%s|%s then %s]" % (lib, cases[0].split("/")[0], "5bus" if k % 2 == 0 else "the same case"))
               for lib in ("klu", "umfpack", "spsolve") for k in range(2)]
